@@ -306,6 +306,19 @@ def correspond(ctx, scale):
                     break
         except Exception as ex:
             failures.append({'key': f'{cls}:interleaved:exception:{type(ex).__name__}', 'what': f'{cls}: {ex!r}', 'case': dict(cls=cls, interleaved=True)})
+    # the SAME quantizer module at two depths of one stack (tied stages: rvq.layers[3] = rvq.layers[0], an A-B-A-B stack): which layers run is decided
+    # by POSITION - the running layers are still the prefix the seed prescribes
+    for cls in ('ResidualVQ', 'ResidualFSQ', 'ResidualLFQ', 'ResidualSimVQ'):
+        try:
+            qt_ = make(cls, 6, 0, 1)
+            qt_.layers[3] = qt_.layers[0]
+            qt_.layers[4] = qt_.layers[1]
+            for r_want, seed in sorted(seed_for[(0, 6)].items()):
+                flags, problems = run_one(qt_, cls, 6, seed, False)
+                add_case(cls + '', 6, 0, 1, seed, False, flags, problems, expect_drop=True)
+                dist['tied_stage_stacks'] = dist.get('tied_stage_stacks', 0) + 1
+        except Exception as ex:
+            failures.append({'key': f'{cls}:tied-stages:exception:{type(ex).__name__}', 'what': f'{cls}: {ex!r}', 'case': dict(cls=cls, tied=True)})
     # the caller used a LAYER on its own before (layer(x, return_loss_breakdown=True) where the class offers it) and accumulated in place into what it got
     # back - afterwards the dropped layers of the stack still report exactly zero loss entries (a shared "zero" tensor handed out by a layer would
     # have been overwritten)
